@@ -77,7 +77,7 @@ func getWrapper(n *node, t reflect.Type) reflect.Type {
 		return nil
 	}
 	w := p["_"+t.Name()]
-	lm := n.typ.methods()
+	lm := n.typ.dynMethods()
 
 	// mapTypes may contain composed interfaces wrappers to test against, from
 	// most complex to simplest (guaranteed by construction of mapTypes). Find the
